@@ -56,6 +56,65 @@ func runC20(p *chk.Prog, r *chk.Report) {
 	guardedRule(x, p, guardTable)
 	c20NoBlock(p, r)
 	c20Leak(p, r)
+	c20Reentrant(p, r)
+	c20Fetchers(p, r)
+}
+
+// c20Reentrant: no mutex is acquired again while it is certainly held (directly, or through a method called on the
+// same receiver): sync.Mutex / RWMutex are not re-entrant - a nested RLock deadlocks as soon as a writer queues between
+// the two acquisitions, and every handler then stops because the blocked one keeps the Listener mutex.
+func c20Reentrant(p *chk.Prog, r *chk.Report) {
+	x := r.Rule("LOCK-REENTRANT", "C locks (must-hold lockset dataflow)", "no Lock/RLock of a mutex that the must-hold lockset already contains, neither in the same function nor through a method of the same receiver that (transitively) acquires it", 1)
+	la := locksOf(p)
+	n := 0
+	for _, ra := range la.Reacquires() {
+		n++
+		x.Fail("reacquire:"+ra.Fn.Name()+":"+ra.Lock.Name(), ra.Call.Pos(), ra.Op+" of "+ra.Lock.Name()+" while it is already held (not re-entrant: deadlock)")
+	}
+	for _, ra := range la.ReentrantCalls(lockPkgs...) {
+		n++
+		callee := ""
+		if fn, ok := ra.Fn.Callee(ra.Call).(*types.Func); ok {
+			callee = fn.Name()
+		}
+		x.Fail("reentrant-call:"+ra.Fn.Name()+"->"+callee, ra.Call.Pos(), ra.Fn.Name()+" calls "+callee+" on its own receiver while holding "+ra.Lock.Name()+", which "+callee+" acquires again ("+ra.Op+"): sync mutexes are not re-entrant, a writer arriving in between deadlocks every handler")
+	}
+	if n == 0 {
+		x.OK("no-reentrant-acquisition", 0, "")
+	}
+}
+
+// c20Fetchers: the status fetchers run on other goroutines than the serialised handlers; they may touch only the
+// fields their own mutex guards (everything else of the receiver belongs to the handlers).
+func c20Fetchers(p *chk.Prog, r *chk.Report) {
+	x := r.Rule("FETCHER-SCOPE", "D ownership", "the self-locking status fetchers read only the state their own mutex guards: Allocator.CountersForPool {countersMutex, poolToCounters}; bgpController.PeersForService {activeAdsMutex, activeAds}; Announce.GetStatus {its RWMutex, ips, nodeInterfaces}", 3)
+	rows := []struct {
+		pkg, typ, fn string
+		allowed      map[string]bool
+	}{
+		{"internal/allocator", "Allocator", "CountersForPool", map[string]bool{"countersMutex": true, "poolToCounters": true}},
+		{"speaker", "bgpController", "PeersForService", map[string]bool{"activeAdsMutex": true, "activeAds": true}},
+		{"internal/layer2", "Announce", "GetStatus", map[string]bool{"RWMutex": true, "ips": true, "nodeInterfaces": true, "logger": true}},
+	}
+	for _, row := range rows {
+		f := need(x, p, row.pkg, row.typ, row.fn)
+		if f == nil {
+			continue
+		}
+		recv := f.Recv()
+		ok, bad := true, f.Pos()
+		ast.Inspect(f.Body, func(n ast.Node) bool {
+			sel, isSel := n.(*ast.SelectorExpr)
+			if !isSel || recv == nil || f.ObjOf(sel.X) != types.Object(recv) {
+				return true
+			}
+			if s := f.Info().Selections[sel]; s != nil && s.Kind() == types.FieldVal && !row.allowed[sel.Sel.Name] {
+				ok, bad = false, sel.Pos()
+			}
+			return true
+		})
+		x.Check(row.fn+":reads-only-its-guarded-state", bad, ok, "", row.typ+"."+row.fn+" runs outside the handlers' serialisation and reads a field that its own mutex does not guard (unsynchronised access to handler-private state)")
+	}
 }
 
 func c20Entry(p *chk.Prog, r *chk.Report) {
@@ -249,7 +308,9 @@ func c20NoBlock(p *chk.Prog, r *chk.Report) {
 		isOp                      func(f *chk.Fn, call *ast.CallExpr) bool
 		floor                     int
 	}{
-		{"internal/allocator", "Allocator", "countersMutex", "countersChangedCallback", func(f *chk.Fn, c *ast.CallExpr) bool { return f.MatchNew("RECV.countersChangedCallback(ETC)", c) != nil }, 3},
+		{"internal/allocator", "Allocator", "countersMutex", "countersChangedCallback", func(f *chk.Fn, c *ast.CallExpr) bool {
+			return f.MatchNew("RECV.countersChangedCallback(ETC)", c) != nil
+		}, 3},
 		{"speaker", "bgpController", "activeAdsMutex", "adsChangedCallback", func(f *chk.Fn, c *ast.CallExpr) bool { return f.MatchNew("RECV.adsChangedCallback(ETC)", c) != nil }, 1},
 		{"internal/layer2", "Announce", "", "doSpam", func(f *chk.Fn, c *ast.CallExpr) bool { return f.MatchNew("RECV.doSpam(ETC)", c) != nil }, 1},
 	}
